@@ -411,6 +411,11 @@ class Interp:
                 for cl, vt in vals[:-1]:
                     t = z3.If(z3.Or([cls == self.eng.class_id(c) for c in cl]), vt, t)
                 return SV(sym.simp(t))
+        if None in groups and len(groups) > 1 and name not in self.eng.instance_fields:
+            # classes that have no such member: AttributeError there
+            bad = groups.pop(None)
+            r_ = sym.r_of(v.t)
+            self.maybe_raise(z3.Not(z3.Or([self.heap.cls(r_) == self.eng.class_id(c) for c in bad])), 'AttributeError', fr, node, f'.{name} on non-object of a class without it')
         k = self.narrow(v, groups, f'dispatch-{name}')
         r = found[k]
         if r is None:
